@@ -27,6 +27,9 @@ def _val(x):
     return _xr(x).v
 
 
+UNDERFLOW = [False]  # float32 underflow of exp in softmax (off: exact real exponential, zero only at -inf)
+
+
 def softmax_stub(t, dim, log):
     """contract of torch.softmax / log_softmax over one slice:
     softmax: p_i = 0 iff x_i = -inf; p_i > 0 otherwise; sum = 1; order- and equality-preserving among finite entries.
@@ -46,6 +49,13 @@ def softmax_stub(t, dim, log):
             vals.append(v)
         fin = [s_not(x.ninf) for x in row]
         E.obligation("softmax row has a finite entry", any_(fin))
+        if UNDERFLOW[0]:
+            # float32: exp(x_j - max) underflows to exactly 0 once x_j is more than ~104 below the row maximum (code that masks
+            # with a large finite negative number instead of -inf relies on this); entries within 100 of the maximum stay positive
+            dead = [any_([s_and(fin[k], T.s_gt(T.s_sub(row[k].v, row[j].v), 105)) for k in range(len(row)) if k != j]) for j in range(len(row))]
+            live = [all_([s_or(s_not(fin[k]), T.s_lt(T.s_sub(row[k].v, row[j].v), 100)) for k in range(len(row)) if k != j]) for j in range(len(row))]
+            E.assume(_bool(all_([s_or(dead[j], live[j]) for j in range(len(row))])))  # the band in between is not modelled: excluded
+            fin = [s_and(fin[j], s_not(dead[j])) for j in range(len(row))]
         if log:
             for j, x in enumerate(row):
                 E.assume(vals[j] <= 0)
